@@ -52,7 +52,11 @@ func mkBlob(r *hk.Rand) blobT {
 	return blobT{key, v}
 }
 
-func genTree(r *hk.Rand, depth int, diskLeaves bool) *stores.Node {
+// noRep: no replica/cond in this subtree.  It is set below the origin of a proxycache: replica stats
+// its replicas in parallel, so a stat through it can report the blob (proxycache then touches its
+// cache: LRU bookkeeping, possibly an eviction call) AND fail, in an order that depends on goroutine
+// timing; the model's sub-store call has one answer.
+func genTree(r *hk.Rand, depth int, diskLeaves, noRep bool) *stores.Node {
 	leaf := func() *stores.Node {
 		if diskLeaves {
 			switch r.Intn(8) {
@@ -68,29 +72,41 @@ func genTree(r *hk.Rand, depth int, diskLeaves bool) *stores.Node {
 		return leaf()
 	}
 	two := func(k string) *stores.Node {
-		return &stores.Node{Kind: k, Kids: []*stores.Node{genTree(r, depth-1, diskLeaves), genTree(r, depth-1, diskLeaves)}}
+		return &stores.Node{Kind: k, Kids: []*stores.Node{genTree(r, depth-1, diskLeaves, noRep), genTree(r, depth-1, diskLeaves, noRep)}}
 	}
 	switch r.Intn(8) {
 	case 0:
-		return &stores.Node{Kind: "ns", Kids: []*stores.Node{genTree(r, depth-1, diskLeaves)}}
+		return &stores.Node{Kind: "ns", Kids: []*stores.Node{genTree(r, depth-1, diskLeaves, noRep)}}
 	case 1, 2:
 		cache := &stores.Node{Kind: "memcache", Max: []int{1, 60, 250, 100000}[r.Intn(4)]}
 		if r.Chance(30) {
 			cache = &stores.Node{Kind: "mem"}
 		}
 		return &stores.Node{Kind: "proxy", Max: []int{1, 50, 300, 100000}[r.Intn(4)],
-			Kids: []*stores.Node{genTree(r, depth-1, diskLeaves), cache}}
+			Kids: []*stores.Node{genTree(r, depth-1, diskLeaves, true), cache}}
 	case 3, 4:
 		return two("overlay")
 	case 5:
 		return two("shard")
 	case 6:
+		if noRep {
+			return two("shard")
+		}
 		if r.Chance(50) {
 			return two("replica")
 		}
 		return two("cond")
 	default:
 		return two("shard")
+	}
+}
+
+func memLeavesOnly(n *stores.Node) {
+	if n.Kind == "localdisk" || n.Kind == "diskpacked" {
+		n.Kind, n.Max = "mem", 0
+	}
+	for _, k := range n.Kids {
+		memLeavesOnly(k)
 	}
 }
 
@@ -293,7 +309,34 @@ func (c *caseRun) do(line string) {
 
 // ---- histories -----------------------------------------------------------------------------------------------
 
-func genHistory(r *hk.Rand, pool []blobT, n int) []string {
+// overlayUnderMerge: is there an overlay below a node that merge-enumerates its children (shard,
+// replica, cond, overlay)?  An overlay enumerates in several rounds; as a SOURCE of a merge that stops
+// early – at its limit, or because another source failed – it is cancelled somewhere between rounds,
+// so which of its later sub-store calls are still made (and whether an error of a later round is still
+// noticed) depends on goroutine timing, while the model runs every source to completion.  For such
+// trees the generator enumerates only once the failures have stopped, and then with a limit that is
+// never reached: the merge then waits for every source, which is deterministic.  Receive, fetch, stat
+// and remove of these trees are exercised under failures like everywhere else.
+func overlayUnderMerge(n *stores.Node, under bool) bool {
+	if n.Kind == "overlay" && under {
+		return true
+	}
+	merges := n.Kind == "overlay" || n.Kind == "shard" || n.Kind == "replica" || n.Kind == "cond"
+	for _, k := range n.Kids {
+		if overlayUnderMerge(k, under || merges) {
+			return true
+		}
+	}
+	return false
+}
+
+const (
+	enumAny  = iota // any limit
+	enumBig         // only a limit that is never reached
+	enumNone        // no enumerate
+)
+
+func genHistory(r *hk.Rand, pool []blobT, n int, enumMode int) []string {
 	var keys []string
 	for _, b := range pool {
 		keys = append(keys, b.key)
@@ -326,7 +369,15 @@ func genHistory(r *hk.Rand, pool []blobT, n int) []string {
 		case x < 62:
 			h = append(h, "stat "+kh)
 		case x < 82:
-			h = append(h, "enum "+hk.Hex([]byte(cursor()))+" "+strconv.Itoa([]int{1, 2, 3, 5, 1000}[r.Intn(5)]))
+			limit := []int{1, 2, 3, 5, 1000}[r.Intn(5)]
+			if enumMode == enumBig {
+				limit = 1000
+			}
+			if enumMode == enumNone {
+				h = append(h, "stat "+kh)
+			} else {
+				h = append(h, "enum "+hk.Hex([]byte(cursor()))+" "+strconv.Itoa(limit))
+			}
 		default:
 			h = append(h, "rm "+kh)
 		}
@@ -343,6 +394,7 @@ func runCase(r *hk.Run, tree *stores.Node, scheds []string, pool []blobT, hist, 
 	if hasKind(tree, "replica", "cond") {
 		c.class = "replica"
 	}
+	noEnum := overlayUnderMerge(tree, false)
 	for _, b := range pool {
 		c.byKey[b.key] = b.val
 	}
@@ -365,7 +417,7 @@ func runCase(r *hk.Run, tree *stores.Node, scheds []string, pool []blobT, hist, 
 	// use up what is left of the schedules with reads
 	for i := 0; i < 40 && c.ex.PendingFaults() > 0 && !c.dead; i++ {
 		b := pool[i%len(pool)]
-		if i%2 == 0 {
+		if i%2 == 0 || noEnum {
 			c.do("fetch " + hk.Hex([]byte(b.key)))
 		} else {
 			c.do("enum - 1000")
@@ -421,12 +473,18 @@ func schedPattern(scheds []string) string {
 
 func genCases(r *hk.Run) {
 	rnd := r.R
-	nTrees, nHist, nSingles, nBursts := 24, 16, 8, 4
+	nTrees, nHist, nSingles, nBursts := 40, 16, 8, 4
 	if r.Thorough() {
-		nTrees, nHist, nSingles, nBursts = 60, 22, -1, 10
+		nTrees, nHist, nSingles, nBursts = 160, 28, -1, 16
 	}
 	for t := 0; t < nTrees; t++ {
-		tree := genTree(rnd, 1+rnd.Intn(3), t%4 == 3)
+		tree := genTree(rnd, 1+rnd.Intn(3), t%4 == 3, false)
+		if hasKind(tree, "replica", "cond") {
+			// replica cancels the context of its other replicas as soon as one fails; localdisk and
+			// diskpacked then fail their stat too (StatBlobsParallelHelper looks at the context), or not,
+			// depending on goroutine timing.  Memory ignores the context: deterministic.
+			memLeavesOnly(tree)
+		}
 		var leaves []*stores.Node
 		leavesOf(tree, &leaves)
 		nb := 3 + rnd.Intn(4)
@@ -439,8 +497,18 @@ func genCases(r *hk.Run) {
 				pool = append(pool, b)
 			}
 		}
-		hist := genHistory(rnd, pool, nHist/2+rnd.Intn(nHist))
-		cont := genHistory(rnd, pool, 8)
+		big := overlayUnderMerge(tree, false)
+		if big {
+			r.Hit("enumerate:only-when-quiet")
+		} else {
+			r.Hit("enumerate:under-failures")
+		}
+		hm, cm := enumAny, enumAny
+		if big {
+			hm, cm = enumNone, enumBig
+		}
+		hist := genHistory(rnd, pool, nHist/2+rnd.Intn(nHist), hm)
+		cont := genHistory(rnd, pool, 8, cm)
 		label := tree.String()
 		r.Hit("root:" + tree.Kind)
 		// the healthy run: how many calls does each leaf see?
